@@ -98,6 +98,8 @@ IDS = [1, 2, 3]
 
 def stmt_text(st: Dict[str, Any]) -> str:
     arrow = "<-" if st["pers"] else ":="
+    if st.get("text") is not None:   # literal right-hand side (statement forms outside the arithmetic mini language)
+        return f"{st['out']} {arrow} {st['text']};"
     if st["kind"] == "sc":
         rhs = " + ".join(list(st["ops"]) + [str(st["const"])])
         return f"{st['out']} {arrow} {rhs};"
@@ -114,11 +116,15 @@ def stmt_text(st: Dict[str, Any]) -> str:
 
 
 def script_text(stmts: Sequence[Dict[str, Any]]) -> str:
-    return "\n".join(stmt_text(s) for s in stmts)
+    """definitions (operators, rulesets) needed by the statements first, in a fixed order, then the statements as given"""
+    heads = sorted({s["head"] for s in stmts if s.get("head")})
+    return "\n".join(heads + [stmt_text(s) for s in stmts])
 
 
 def expected_raw(st: Dict[str, Any]) -> Tuple[str, List[str], bool, List[str]]:
     """What DAGAnalyzer's visitor collects for the statement (before the cross-statement promotion)."""
+    if st.get("raw") is not None:
+        return st["out"], list(st["raw"][0]), bool(st["pers"]), list(st["raw"][1])
     inputs: List[str] = []
     unk: List[str] = []
     ops = list(st["ops"])
@@ -189,15 +195,20 @@ def input_values(names: Sequence[str]) -> Dict[str, Dict[int, Fraction]]:
     return {n: {i: Fraction(10 ** (k + 1) * 1 + i) for i in IDS} for k, n in enumerate(names)}
 
 
+def measure_of(name: str) -> str:
+    """inputs IN_k all have the measure Me_1 (so that they can be added); inputs JN_k have the measure Me_k (so that they can be joined)"""
+    return f"Me_{name[3:]}" if name.startswith("JN_") else COMP_ME
+
+
 def structures_for(names: Sequence[str]):
     import engine
-    return engine.structures(*[engine.ds_struct(n, [(COMP_ID, "Integer", "Identifier", False), (COMP_ME, "Number", "Measure", True)])
+    return engine.structures(*[engine.ds_struct(n, [(COMP_ID, "Integer", "Identifier", False), (measure_of(n), "Number", "Measure", True)])
                                for n in names])
 
 
 def data_spec(names: Sequence[str]) -> Dict[str, Dict[str, list]]:
     vals = input_values(names)
-    return {n: {COMP_ID: list(IDS), COMP_ME: [float(vals[n][i]) for i in IDS]} for n in names}
+    return {n: {COMP_ID: list(IDS), measure_of(n): [float(vals[n][i]) for i in IDS]} for n in names}
 
 
 def shape_statements(n: int, dep_mask: Sequence[int], in_sets: Sequence[Sequence[int]], pers_mask: int,
@@ -612,6 +623,68 @@ def gen_graph_cases(rng: random.Random, tier: str) -> List[Dict[str, Any]]:
     return cases
 
 
+LOCAL_KINDS = ["join", "joincalc", "udo", "dpr", "calclocal", "rename", "aggr"]
+
+
+def local_stmt(kind: str, out: str, L: str, pers: bool = True) -> Dict[str, Any]:
+    """a statement that introduces the LOCAL name L (join alias, operator parameter, ruleset variable, clause-local component);
+    `raw` = what the DAG visitor must collect for it: L itself is never a dataset read by this statement"""
+    st: Dict[str, Any] = {"out": out, "pers": pers, "kind": "ds", "ops": [], "clause": None, "const": 0, "local": (kind, L)}
+    if kind == "join":
+        st.update(text=f"inner_join(JN_1 as {L}, JN_2 as b)", raw=(["JN_1", "JN_2"], []))
+    elif kind == "joincalc":
+        st.update(text=f"inner_join(JN_1 as {L}, JN_2 as b calc Me_9 := {L}#Me_1 + b#Me_2)", raw=(["JN_1", "JN_2"], []))
+    elif kind == "udo":
+        st.update(head=f"define operator f_{L} ({L} dataset, k integer) returns dataset is {L} * k end operator;",
+                  text=f"f_{L}(JN_1, 2)", raw=(["JN_1"], []))
+    elif kind == "dpr":
+        st.update(head=f'define datapoint ruleset dpr_{L} (variable Me_1 as {L}) is r1: {L} > 0 errorcode "e" end datapoint ruleset;',
+                  text=f"check_datapoint(JN_1, dpr_{L})", raw=(["JN_1"], []))
+    elif kind == "calclocal":
+        st.update(text=f"JN_1[calc {L} := Me_1 + 1][filter {L} > 0]", raw=(["JN_1"], ["Me_1", L]))
+    elif kind == "rename":
+        st.update(text=f"JN_1[rename Me_1 to {L}]", raw=(["JN_1"], []))
+    elif kind == "aggr":
+        st.update(text=f"JN_1[aggr {L} := sum(Me_1) group by Id_1]", raw=(["JN_1"], ["Me_1"]))
+    else:
+        raise ValueError(kind)
+    return st
+
+
+def plain_stmt(out: str, text: str, reads: List[str], pers: bool) -> Dict[str, Any]:
+    return {"out": out, "pers": pers, "kind": "ds", "ops": [], "clause": None, "const": 0, "text": text, "raw": (reads, [])}
+
+
+def gen_localname_cases(rng: random.Random, tier: str) -> List[Dict[str, Any]]:
+    """Scripts in which a name that is LOCAL to one statement (join alias, user-defined-operator parameter, datapoint-ruleset variable,
+    component created/renamed inside a clause) coincides with the name of another statement's result or of an input dataset that
+    other statements read.  Every kind x both coincidences on every run, plus sampled combinations of two kinds."""
+    cases = []
+    ins = ["JN_1", "JN_2", "JN_3"]
+
+    def add(stmts, tag, shape):
+        cases.append({"cat": tag, "canon": stmts, "stmts": permuted(rng, stmts), "inputs": ins, "shape": shape, "check_ref": False,
+                      "no_ref": True})
+
+    for kind in LOCAL_KINDS:
+        L = rng.choice(["a", "res", "x_1"])
+        add([local_stmt(kind, "R_loc", L), plain_stmt(L, "JN_3 * 2", ["JN_3"], False), plain_stmt("R_c", f"{L} + 1", [L], True)],
+            f"local:{kind}:result", ("local", kind, "result"))
+        add([local_stmt(kind, "R_loc", "JN_3"), plain_stmt("R_z", "JN_2 + 1", ["JN_2"], False), plain_stmt("R_c", "JN_3 + 1", ["JN_3"], True)],
+            f"local:{kind}:input", ("local", kind, "input"))
+    for i in range(60 if tier == "thorough" else 3):
+        k1, k2 = rng.sample(LOCAL_KINDS, 2)
+        L = rng.choice(["a", "res", "JN_3"])
+        st = [local_stmt(k1, "R_loc", L), local_stmt(k2, "R_lo2", L, pers=rng.random() < 0.5)]
+        if not L.startswith("JN_"):
+            st.append(plain_stmt(L, "JN_3 * 2", ["JN_3"], False))
+        else:
+            st.append(plain_stmt("R_z", "R_lo2 + 1", ["R_lo2"], False))
+        st.append(plain_stmt("R_c", f"{L} + 1", [L], True))
+        add(st, f"local:{k1}+{k2}:{'input' if L.startswith('JN_') else 'result'}", ("local2", k1, k2, L, i))
+    return cases
+
+
 # ------------------------------------------------------------------------------------------------ the DAG tie (X)
 OUTCOME = {"Accepted": "ok", "CycleRejected": "1-3-2-3", "RedefinitionRejected": "1-2-2"}
 
@@ -766,6 +839,8 @@ def struct_dataset_names(struct_paths: Sequence[str]) -> List[str]:
 
 # ------------------------------------------------------------------------------------------------ the trace tie
 def true_reads(st: Dict[str, Any]) -> List[str]:
+    if st.get("raw") is not None:
+        return list(st["raw"][0])
     r = list(dict.fromkeys(st["ops"]))
     if st.get("clause"):
         r.append(st["clause"])
